@@ -41,6 +41,17 @@ CHECKS = {
                 note="reference semantics of appendix B; 'unspecified' cases (negative indices, undefined operands) excluded and counted; "
                      "quantum hooks and wait polling are harness overrides of no-op/abstract methods",
                 ref="3/C04"),
+    "C07": dict(cat="exploration", tech="exhaustive enumeration of gates x placements x all 65536 angle operands through the real transpiler; exact matrix comparison with independent operator semantics",
+                text="Every accepted vanilla gate is run through the real NVSubroutineTranspiler for every qubit placement "
+                     "(electron id 0, carbons 1..3; all 12 ordered pairs for CNOT/CPHASE; MOV in both directions), every rotation "
+                     "numerator 0..255 and denominator 0..255 in simulation mode and 0..4 in hardware mode (others must be rejected); "
+                     "the emitted NV instructions are interpreted with independent textbook operator definitions and compared as "
+                     "exact matrices up to one global phase with the gate they replace (3-qubit unitary equal to gate x identity for "
+                     "carbon-carbon, so the borrowed electron is restored for every electron state; MOV as an isometry onto a fresh "
+                     "target). Every to_matrix/to_matrix_target_only and the util.quantum_gates tables are compared with the same "
+                     "definitions for all (n,d). Complete for the stated space.",
+                note="NV instruction semantics (rot, crot) as in the NetQASM paper; float tolerance 1e-9",
+                ref="3/C07"),
     "C15": dict(cat="exploration", tech="bounded-exhaustive enumeration of message serialise/deserialise round trips",
                 text="Every host-to-controller and controller-to-host message type is serialised and deserialised by the real code "
                      "for every value of each field's boundary lattice (complete for 8-bit fields) against two backgrounds, every "
